@@ -328,7 +328,7 @@ def run_shard(ctx):
     for k in range(count):
         prog = rp.program()
         lay = gen.Layout(rng, noise=rng.choice([0.0, 0.2, 0.5]), breaks=rng.choice([0.0, 0.0, 0.3]), comments=rng.choice([0.0, 0.3]),
-                         tight=rng.random() < 0.2)
+                         tight=rng.random() < 0.2, pre_p=rng.choice([0.0, 0.0, 0.5]), inner_p=rng.choice([0.0, 0.3, 0.8]))
         script = gen.render_program(prog, lay)
         ex = gen.classify(prog)
         ctx.evaluation(script, nontrivial=True, sample={'script': script, 'kind': 'random'})
